@@ -300,6 +300,20 @@ def spec_readback(chk, gwbin, label, cfg, n_ops):
                              "HEAD reads back %r and GET %r" % (j + 1, dk, seq[:j + 1], md, label, gm, gm2),
                              {"config": label, "key": dk, "uploads": seq[:j + 1], "head_meta": gm, "get_meta": gm2})
                     break
+        # directory objects stay what they are when objects below them come and go: uploading and deleting "dkeep/sub/file" leaves
+        # the explicitly uploaded "dkeep/" and "dkeep/sub/" readable with their metadata
+        for dks, child in ((("dkeep/",), "dkeep/child.txt"), (("dkeep2/", "dkeep2/sub/"), "dkeep2/sub/deep/file")):
+            for dk in dks:
+                cls[0].req("PUT", "/bk1/" + dk, body=b"", headers={"x-amz-meta-kind": "dir-" + dk.strip("/").replace("/", "-")})
+            rc_ = cls[rnd.randrange(2)].req("PUT", "/bk1/" + child, body=b"child")
+            rd_ = cls[rnd.randrange(2)].req("DELETE", "/bk1/" + child)
+            for dk in dks:
+                h_ = cls[rnd.randrange(2)].req("HEAD", "/bk1/" + dk)
+                gm = e2e.meta_of(h_.headers) if h_.status == 200 else None
+                chk.case(("spec-dirobj-child", label, dk), True); chk.traces += 1
+                if rc_.status == 200 and rd_.status == 204 and gm != {"kind": "dir-" + dk.strip("/").replace("/", "-")}:
+                    chk.fail("c01:readback:%s:dirobj-after-child-delete" % label.split("+")[0], "the directory object %r (uploaded with user metadata) answers HEAD %d with metadata %r after the object %r below it was uploaded and "
+                             "deleted again (%s)" % (dk, h_.status, gm, child, label), {"config": label, "key": dk, "child": child, "head_status": h_.status, "head_meta": gm})
         chk.tie("gateways still running (%s)" % label, all(g.alive() for g in gws), gws[0].log_tail())
 
 
